@@ -79,7 +79,9 @@ def gen_tree(rng, depth, allow_fail, open_keys):
         return ["indexed", sub()]
     if k < 0.94:
         return [rng.choice(["mergeslices", "msi"])] + [gen_vals(rng) for _ in range(rng.randrange(0, 4))]
-    return ["jsonrt", sub()]
+    if k < 0.97:
+        return ["jsonrt", sub()]
+    return ["jsonlit"] + [rng.choice(["null", "null", 0, 1, 5, -3, 7]) for _ in range(rng.randrange(0, 7))]
 
 
 def gen(rng, tier, open_keys):
@@ -106,7 +108,8 @@ def corpus():
     return ["(pipe (read 6) (map 10 0 (inj (1 (err 7))) (slice 1 2 3)))",
             "(pipe (read 6) (join (slice 1 2) (filter 2 0 (slice 4 5 6))))",
             "(pipe (read 8) (uniq (chain (slice 1 1 2) (stack 2 3))))",
-            "(pipe (json) (jsonrt (indexed (dropzero (slice 0 5 0 6)))))"]
+            "(pipe (json) (jsonrt (indexed (dropzero (slice 0 5 0 6)))))",
+            "(pipe (read 6) (jsonlit 5 null 7 null))"]
 
 
 def known_witnesses():
@@ -176,6 +179,8 @@ def spec(t):
         return spec(a[1])
     if h in ("split1", "jsonrt"):
         return spec(a[0])
+    if h == "jsonlit":
+        return [0 if x == "null" else int(x) for x in a], False
     if h == "uniq":
         xs, f = spec(a[0]); seen, out = set(), []
         for x in xs:
@@ -251,7 +256,7 @@ def nontrivial(line, obs):
 def features(line, obs):
     f = []
     for k in ("slice", "vari", "chan", "list", "stack", "gen", "filter", "map", "join", "chain", "buffer", "split1", "channel",
-              "uniq", "dropzero", "indexed", "mergeslices", "msi", "jsonrt", "read", "count", "slicec", "reduce", "json"):
+              "uniq", "dropzero", "indexed", "mergeslices", "msi", "jsonrt", "jsonlit", "read", "count", "slicec", "reduce", "json"):
         if "(" + k + " " in line or "(" + k + ")" in line:
             f.append("op:" + k)
     for k in ("skip", "(err", "eof", "abort", "ctx"):
